@@ -1011,8 +1011,13 @@ func checkPatcherDiscipline(e *Env, p *load.Program) {
 		thr := false
 		for _, b := range rl.Blocks {
 			if ifi, ok := flow.LastIf(b); ok {
-				if bo, ok := ifi.Cond.(*ssa.BinOp); ok && bo.Op == token.GTR {
-					if k, ok := flow.ConstInt(bo.Y); ok && k == 255 {
+				if bo, ok := ifi.Cond.(*ssa.BinOp); ok && (bo.Op == token.GTR || bo.Op == token.GEQ) {
+					// a bridge is needed above 255; bridging earlier is harmless, later is not
+					k, ok := flow.ConstInt(bo.Y)
+					if bo.Op == token.GEQ {
+						k--
+					}
+					if ok && k <= 255 && k >= 1 {
 						// true edge leads to the insertAfter call
 						for _, c := range callsToFn(rl, ia) {
 							if flow.EdgeDominates(b, b.Succs[0], c.Block()) {
@@ -1023,7 +1028,7 @@ func checkPatcherDiscipline(e *Env, p *load.Program) {
 				}
 			}
 		}
-		r.Check(thr, "E2.bridge", "Program.resolveLabel/threshold", p.Pos(rl.Pos()), "a bridge is inserted exactly when the distance exceeds 255", "the bridge threshold is not `distance > 255`")
+		r.Check(thr, "E2.bridge", "Program.resolveLabel/threshold", p.Pos(rl.Pos()), "a bridge is inserted whenever the distance exceeds 255", "no branch of the form `distance > K` with K <= 255 leads to the bridge insertion: distances above 255 are not bridged")
 	}
 }
 
